@@ -22,6 +22,12 @@ def generate(tier, seed):
             reqs = c01.requests_for(d, rnd)
             n = 0
             for rs, ls, ex in c01.configs_for(d, rnd, per_kind, 2, 2):
+                # now and then a stored value carries leading / trailing blanks (legal through the management API and the
+                # memory adapter; both loops must read the SAME stored text)
+                if rs and n % 5 == 2:
+                    rs = [list(r) for r in rs]
+                    j = rnd.randrange(len(rs[0]))
+                    rs[0][j] = rnd.choice([rs[0][j] + " ", " " + rs[0][j]])
                 lines = [["p", "p"] + r for r in rs] + [["p", "p" + k] + r for r in rs] + [["g", gk] + l for gk, l in ls]
                 steps = []
                 for r in reqs:
